@@ -119,6 +119,7 @@ func (s *standardJT808DataHandle) OnPackageProgressEvent(progress *PackageProgre
 		}
 	case consts.T1212FileUploadComplete:
 		name := s.T0x1212.FileName
+		s.T0x1212.P0x9212RetransmitPacketList = nil // 不保留上一个文件的补传列表 (文件名没有在0x1210里出现过的情况)
 		if v, ok := progress.Record[name]; ok {
 			s.T0x1212.P0x9212RetransmitPacketList = v.StatisticalMissSegments()
 			if len(s.T0x1212.P0x9212RetransmitPacketList) > 0 {
